@@ -69,13 +69,29 @@ def close_score(a, b):
     return abs(a - b) <= 1e-9 * max(1.0, abs(a), abs(b))
 
 
+def int_cols(rng, case):
+    """some data sets carry integer column names (the default of pd.DataFrame(ndarray)), in a shuffled order - only where no family
+    has two or more parents: pandas' unstack cannot take a LIST of integer level names, so the unchanged library already fails there"""
+    indeg = {}
+    for u, v in case["edges"]:
+        indeg[v] = indeg.get(v, 0) + 1
+    if rng.random() < .3 and all(d <= 1 for d in indeg.values()):
+        n = len(case["cols"])
+        names = list(range(n))
+        rng.shuffle(names)
+        case["cols"] = names
+    return case
+
+
 def gen_local(rng, tier):
-    case = c06.gen_data(rng, tier)
+    case = int_cols(rng, c06.gen_data(rng, tier))
     case["weights"] = None
     n = len(case["cols"])
     v = rng.randrange(n)
     others = [u for u in range(n) if u != v]
     ps = rng.sample(others, rng.randint(0, min(rng.choice([2, 2, 3, 4]), len(others))))
+    if isinstance(case["cols"][0], int):
+        ps = ps[:1]
     case["var"], case["parents"] = v, ps
     case["kind"] = rng.choice(KINDS)
     case["ess"] = rs(rng.choice([Fraction(1), Fraction(5), Fraction(10), Fraction(5, 2)]))
@@ -120,7 +136,7 @@ def run_local(case, drv):
 
 # ----------------------------------------------------------------------------- network score, metric wrapper
 def gen_network(rng, tier):
-    case = c06.gen_data(rng, tier)
+    case = int_cols(rng, c06.gen_data(rng, tier))
     case["weights"] = None
     case["kind"] = rng.choice(KINDS)
     case["ess"] = rs(rng.choice([Fraction(1), Fraction(5), Fraction(10)]))
@@ -166,7 +182,7 @@ def run_network(case, drv):
 
 # ----------------------------------------------------------------------------- cache
 def gen_cache(rng, tier):
-    case = c06.gen_data(rng, tier)
+    case = int_cols(rng, c06.gen_data(rng, tier))
     case["weights"] = None
     n = len(case["cols"])
     calls = []
@@ -240,7 +256,7 @@ def covered_reversals(n, edges, rng, k=3):
 
 
 def gen_equiv(rng, tier):
-    case = c06.gen_data(rng, tier)
+    case = int_cols(rng, c06.gen_data(rng, tier))
     case["weights"] = None
     n = len(case["cols"])
     case["edges2"] = covered_reversals(n, case["edges"], rng)
